@@ -607,6 +607,9 @@ def run_job(job):
     for k in ("queries", "unsat", "sat", "unknown"):
         res[k] = getattr(stats, k)
     res["solver_s"] = stats.solver_s
+    res["xchecks"], res["xsolvers"] = stats.xchecks, sorted(stats.xsolvers)
+    for d in stats.xdisagree[:3]:
+        res["inconclusive"].append("%s: SOLVER DISAGREEMENT on a property query: %s" % (label, d))
     res["wall_s"] = time.time() - t0
     return res
 
@@ -663,6 +666,8 @@ def run_jobs(jobs, nproc=16):
     import multiprocessing as mp
     if nproc <= 1 or len(jobs) <= 1:
         return [safe_run_job(j) for j in jobs]
+    load_modules()   # once, in the parent: forked workers inherit the fresh module copies, and the
+    #                  parent's atexit hook removes the temporary directory (pool workers never run atexit)
     ctxm = mp.get_context("fork")
     with ctxm.Pool(min(nproc, len(jobs))) as pool:
         return pool.map(safe_run_job, jobs, chunksize=1)
@@ -724,6 +729,11 @@ def merge(part, results, prop, expected_obligations=()):
     part["inconclusive"] = sorted(set(part["inconclusive"]))
     part["solver_s"] = round(part["solver_s"], 3)
     part["solvers"] = ["z3 %s (python API)" % z3.get_version_string()]
+    xs = sorted({x for r in results for x in r.get("xsolvers", [])})
+    nx = sum(r.get("xchecks", 0) for r in results)
+    if nx:
+        part["solvers"] += ["%s (binary; re-decided %d sampled property queries, 0 disagreements tolerated)" % (x, nx) for x in xs]
+        part["cross_checked_queries"] = nx
     return part
 
 
